@@ -55,7 +55,7 @@ func NewHashDeCommitmentFromBytes(marshalled [][]byte) HashDeCommitment {
 
 func (cmt *HashCommitDecommit) Verify() bool {
 	C, D := cmt.C, cmt.D
-	if C == nil || D == nil {
+	if C == nil || len(D) == 0 {
 		return false
 	}
 	hash := common.SHA512_256i(D...)
